@@ -430,7 +430,7 @@ class SymInterp:
             target = self.resolver(recv, f.attr)
             if target is None and isinstance(recv, Sym) and callable(recv.__dict__.get(f.attr)):
                 target = recv.__dict__[f.attr]
-            if target is None and isinstance(recv, Sym) and f.attr in type(recv).__dict__ and callable(type(recv).__dict__[f.attr]) and not f.attr.startswith("__"):
+            if target is None and isinstance(recv, Sym) and f.attr in type(recv).__dict__ and callable(type(recv).__dict__[f.attr]):
                 target = getattr(recv, f.attr)
             if target is not None:
                 if callable(target):
